@@ -1406,6 +1406,11 @@ impl DomSim {
                     (DKind::EncodeDecode { .. } | DKind::DecodeDupFile { .. }, _) => {
                         ctx.count("codec_panicked_in_history(not judged here)");
                     }
+                    (DKind::RawRoundTrip { .. }, _) => {
+                        // from_raw documents a panic for a map that holds duplicate
+                        // UniqueIds; a DOM in that state is C12's business.
+                        ctx.count("raw_round_trip_refused(not judged here)");
+                    }
                     (_, "C10") => ctx.violate(p.key.clone(), format!("{} called within its preconditions panicked at {}: {}", kind_name(&op.kind), p.location, p.message)),
                     _ => {}
                 }
@@ -1478,9 +1483,22 @@ impl DomSim {
                     ctx.count("aborted_histories");
                     return;
                 }
+                let mut bound = BTreeSet::new();
                 for (root_id, root_ref) in eff.clone_roots.iter().zip(returned.iter()) {
+                    // A returned referent that is not a parentless root, or a copy
+                    // reached twice, is C11's business: no verdict from here.
+                    if world.doms[dest].get_by_ref(*root_ref).map_or(true, |i| i.parent().is_some()) {
+                        ctx.count("aborted_histories");
+                        ctx.count("histories_ended_by_malformed_clone_result(C11's business)");
+                        return;
+                    }
                     let mut stack = vec![(*root_id, *root_ref)];
                     while let Some((mid, rref)) = stack.pop() {
+                        if !bound.insert(ref_key(rref)) {
+                            ctx.count("aborted_histories");
+                            ctx.count("histories_ended_by_malformed_clone_result(C11's business)");
+                            return;
+                        }
                         let inst = match world.doms[dest].get_by_ref(rref) {
                             Some(i) => i,
                             None => {
